@@ -15,7 +15,7 @@ PROPS_FILE = "Props/C10.v"
 PROPS_MODULE = "Props.C10"
 RULE = ("seeded generator of tempo scripts (1..6 changes, bpm from dyadic/decimal/awkward families, metronomes 1..8 "
         "changing on measure lines, pairwise on the 1/96 grid) and query multisets (unsorted, duplicates, grid points of "
-        "every denominator, +-eps off grid; cumulative beats also at arbitrary off-grid times; tempo lists also handed over shuffled); a case is non-trivial when it has >=2 tempo changes or >=2 distinct queries; "
+        "every denominator, +-eps off grid; cumulative beats also at arbitrary off-grid times; tempo lists also handed over shuffled); 'keeps' cases: the map built by BpmList.to_timing_map / from_bpm_changes_offset from lists in any order, at arbitrary ms positions, with repeated tempos, holds exactly the changes given; a case is non-trivial when it has >=2 tempo changes or >=2 distinct queries; "
         "distinct by hash of the canonical JSON of the input")
 ASSUMPTIONS = [
     "binary64 rounding inside the implementation is not modelled: the exact stream runs the implementation on "
@@ -138,6 +138,20 @@ def generate(rng, tier):
         if x < 0:
             x = -x
         cases.append({"kind": "snapper", "x": F.frac_json(x)})
+    # the timing map holds exactly the tempo changes given: lists in any order, at arbitrary millisecond positions
+    # (on no grid), with neighbouring changes that repeat the previous tempo (re-sync points)
+    for i in range(40 if tier == "quick" else 1500):
+        k = rng.choice([1, 2, 3, 3, 4, 6])
+        offs = sorted(rng.sample(range(-2000, 60000), k))
+        given = []
+        for j, o in enumerate(offs):
+            if given and rng.random() < 0.45:
+                bpm, met = given[-1][1], given[-1][2]          # same tempo again
+            else:
+                bpm, met = rng.choice([60, 75, 120, 150, 174, 240, 300]), rng.choice([4, 4, 4, 3, 5, 7])
+            given.append([o + rng.choice([0, 0, 0.5, 0.25]), bpm, met])
+        rng.shuffle(given)
+        cases.append({"kind": "keeps", "given": given, "via": rng.choice(["bpmlist", "bpmlist", "offset"])})
     for i in range(n):
         l = _script(rng)
         init = rng.choice([Fr(0), Fr(0), Fr(rng.randint(-5000, 5000)), Fr(rng.randint(-10 ** 6, 10 ** 6), 64),
@@ -227,6 +241,15 @@ def execute(case):
             x = F.frac_from_json(case["x"])
             r = Snapper().snap(x)
             return {"v": F.frac_json(Fr(r))}
+        if kind == "keeps":
+            from reamber.algorithms.timing.utils.BpmChangeOffset import BpmChangeOffset
+            if case["via"] == "bpmlist":
+                from reamber.base.lists.BpmList import BpmList
+                from reamber.base.Bpm import Bpm
+                tm = BpmList([Bpm(offset=float(o), bpm=float(b), metronome=float(m)) for o, b, m in case["given"]]).to_timing_map()
+            else:
+                tm = TimingMap.from_bpm_changes_offset([BpmChangeOffset(float(b), float(m), float(o)) for o, b, m in case["given"]])
+            return {"v": [[float(b.offset), float(b.bpm), float(b.metronome)] for b in tm.bpm_changes_offset]}
         init = conv(F.frac_from_json(case["init"]))
         try:
             tm = TimingMap.from_bpm_changes_snap(init, _mk(case["l"], conv), reseat=False)
@@ -289,6 +312,9 @@ def emit(case, out):
     kind = case["kind"]
     if kind == "snapper":
         return f"CSnapper {F.q(F.frac_from_json(case['x']))} {F.q(F.frac_from_json(out['v']))}"
+    if kind == "keeps":
+        bl = lambda rows: F.lst([f"(mkBco {F.q(Fr(b))} {F.q(Fr(m))} {F.q(Fr(o))})" for o, b, m in rows])
+        return f"CKeeps {bl(case['given'])} {bl(out['v'])}"
     exact = case.get("exact", True)
     tol = "0" if exact else "(1#1000000)"
     init = F.q(F.frac_from_json(case["init"]))
@@ -320,11 +346,15 @@ def emit(case, out):
 def nontrivial(case, out):
     if case["kind"] == "snapper":
         return F.frac_from_json(case["x"]).denominator > 1
+    if case["kind"] == "keeps":
+        return len(case["given"]) >= 2
     return len(case["l"]) >= 2 or len({(q["m"], tuple(q["b"])) for q in case.get("qs", [])}) >= 2
 
 
 def bucket(case, out):
     k = case["kind"] + ("" if case.get("exact", True) else "-rounded")
+    if case["kind"] == "keeps":
+        return k + f"/changes={len(case['given'])}/{case['via']}"
     if case["kind"] != "snapper":
         k += f"/changes={len(case['l'])}"
         if out.get("v") is None:
@@ -337,6 +367,8 @@ def classify(case, out, kind):
 
 
 def describe(case, out):
+    if case["kind"] == "keeps":
+        return f"keeps via={case['via']} given={case['given']} got={out.get('v')}"
     return f"{case['kind']} exact={case.get('exact', True)} changes={len(case.get('l', []))} queries={len(case.get('qs', []))}"
 
 
@@ -349,6 +381,11 @@ def shrink(case):
     for i in range(len(case.get("offs", []))):
         c = dict(case); c["offs"] = case["offs"][:i] + case["offs"][i + 1:]
         yield c
+    if case["kind"] == "keeps":
+        for i in range(len(case["given"])):
+            c = dict(case); c["given"] = case["given"][:i] + case["given"][i + 1:]
+            yield c
+        return
     if len(case["l"]) > 1:
         c = dict(case); c["l"] = case["l"][:-1]
         yield c
